@@ -3,6 +3,7 @@ import PynModel.Core.Series
 import PynModel.Core.Group
 import PynModel.Core.Meta
 import PynModel.Process.Convolve
+import PynModel.Process.Spectrum
 /-!
 # Line protocol, part 2: container-level operations (series constructor and histories)
 `snew <t> <rows> <sup|none>`            → `t|rows|sup|num/den`
@@ -205,6 +206,17 @@ def convStep (toks : List String) : String :=
     | _, _, _, _, _ => "bad-op"
   | _ => "bad-op"
 
+/-- `fftbins <n>` → sorted rows `bin:position:kept:doubled` -/
+def specStep (toks : List String) : String :=
+  match toks with
+  | ["fftbins", n] =>
+    match n.toNat? with
+    | some n => if n == 0 then "-" else
+        ",".intercalate ((sortedBins n).map fun p =>
+          s!"{p.1}:{p.2}:{if keptOneSided p.1 then 1 else 0}:{if doubledBin n p.1 then 1 else 0}")
+    | none => "bad-op"
+  | _ => "bad-op"
+
 def stepAll (line : String) : String :=
   let toks := (line.trimAscii.toString.splitOn " ").filter (· ≠ "")
   match toks with
@@ -212,6 +224,7 @@ def stepAll (line : String) : String :=
   | "hist" :: _ => seriesStep toks
   | "ghist" :: _ => groupStep toks
   | "conv" :: _ => convStep toks
+  | "fftbins" :: _ => specStep toks
   | "tnew" :: _ => metaStep toks
   | "tget" :: _ => metaStep toks
   | "tint" :: _ => metaStep toks
